@@ -517,6 +517,13 @@ example : guarded [.unpackAuth 25, .verify, .decode .remainder 23, .assertValid,
 example : guarded [.unpackAuth 23, .verify, .decode .data 23, .assertValid, .lookupPeer, .callPeer] = false := by decide
 example : guarded [.unpackAuth 23, .verify, .decode .remainder 23, .assertValid, .unpackAuth 23, .lookupPeer, .callPeer] = false := by decide
 example : guarded [.unpackAuth 23, .verify, .decode .remainder 23, .lookupPeer, .callPeer, .assertValid] = false := by decide
+/-- "reuse the Peer we already track at the source address" (`peer = key lookup or get_verified_by_address(src)`) is
+    translated, not refused, and fails the guard; the model then really misattributes: an authentic datagram of key
+    [5,5] arriving from an address where [7,7] is verified is handed to the handler as [7,7] -/
+example : guarded [.unpackAuth 23, .verify, .decode .remainder 23, .assertValid, .appendData, .lookupPeer,
+    .orLookupByAddr, .callPeer] = false := by decide
+example : run { toyEnv with netAddr := some [7, 7] } [.unpackAuth 23, .verify, .decode .remainder 23, .assertValid,
+    .lookupPeer, .orLookupByAddr, .callPeer] toyDatagram = .called [7, 7] [9, 9] none := by decide +kernel
 /-- a harmless reordering (lookup before the check) stays guarded -/
 example : guarded [.unpackAuth 23, .lookupPeer, .verify, .assertValid, .decode .remainder 23, .callPeer] = true := by decide
 /-- `Authentic` is satisfiable -/
